@@ -51,12 +51,9 @@ func c16Run(p c16Prog) (v *drv.Violation, shared bool, failed bool) {
 		}
 		closed := make(chan struct{})
 		go func() { db.Close(); close(closed) }()
-		select {
-		case <-closed:
-		case <-time.After(drv.HangDeadline):
-			if v == nil {
-				v = drv.Violf("Close did not return within %v after all Batch callers had returned (a write transaction was leaked)", drv.HangDeadline)
-			}
+		if h, why := drv.WaitOrHang(closed); h && v == nil {
+			hung = true
+			v = drv.Violf("Close did not return within the deadline after all Batch callers had returned (a write transaction was leaked): %s", why)
 		}
 	}()
 	db.MaxBatchSize = p.BatchSize
@@ -135,11 +132,9 @@ func c16Run(p c16Prog) (v *drv.Violation, shared bool, failed bool) {
 		}(ci, calls)
 	}
 	go func() { wg.Wait(); close(done) }()
-	select {
-	case <-done:
-	case <-time.After(drv.HangDeadline):
+	if h, why := drv.WaitOrHang(done); h {
 		hung = true
-		return drv.Violf("Batch callers did not all return within %v (lost wake-up or leaked lock)", drv.HangDeadline), false, false
+		return drv.Violf("Batch callers did not all return within the deadline (lost wake-up or leaked lock): %s", why), false, false
 	}
 	// final counters
 	counters := map[int]uint64{}
